@@ -2,6 +2,8 @@
 from props import _ikcommon as K
 from props import _finish as F
 ID = "C06"
+# files this check also depends on (the quick tier runs at the thorough sizes when one of them differs from the fingerprinted tree)
+EXTRA_FILES = ['src/tool.rs']
 COQ_TARGETS = ["Exec/Kin.vo", "Exec/Finish.vo", "Gen/Inverse.vo", "Proofs/Complete5.vo", "Proofs/Axis5.vo", "Properties/C06.vo"]
 THEOREMS = ["C06_inverse_5dof_j6", "C06_continuing_5dof_j6", "C06_dof5_dispatch", "C06_dof5_inverse_j6_zero",
             "C06_concrete_inverse_5dof", "C06_concrete_continuing_5dof", "C06_twin5_in_table", "C06_fk_twin5",
